@@ -790,10 +790,12 @@ class J1939_22:
         pgn = ParameterGroupNumber(0, (ParameterGroupNumber.PGN.FD_TP_DT>>8) & 0xFF, dest_address)
         mid = MessageId(priority=7, parameter_group_number=pgn.value, source_address=src_address)
 
-        data.insert(0, (Dtfi & 0xF) | ((session_num & 0xF) << 4))
-        data.insert(1,  segment_num & 0xFF)
-        data.insert(2, (segment_num >> 8) & 0xFF)
-        data.insert(3, (segment_num >> 16) & 0xFF)
+        # build the frame in a new list: 'data' is the segment kept in the send session, it is sent again when the
+        # responder asks for it a second time (the header used to be inserted into the stored segment itself)
+        data = [(Dtfi & 0xF) | ((session_num & 0xF) << 4),
+                segment_num & 0xFF,
+                (segment_num >> 8) & 0xFF,
+                (segment_num >> 16) & 0xFF] + list(data)
 
         next_valid_fd_length = 0
         if len(data)>=(self.DataLength.TP+4):
